@@ -1026,7 +1026,12 @@ class Interp(object):
             if isinstance(v, ClassV) and v.name in EXC_BASES:
                 out.append((s, ('raise', Exc(v.name, origin='raise'))))
             elif isinstance(v, ExcV):
-                out.append((s, ('raise', Exc(v.kind, term=v.term, payload=v.args, origin='raise'))))
+                if node.cause is not None:
+                    # `raise e from c` rewrites e.__cause__ / __suppress_context__: what propagates is no longer the exception
+                    # as it was raised (a different object term; the class is kept)
+                    out.append((s, ('raise', Exc(v.kind, term=fresh('exc_recaused', Val), payload=v.args, origin='raise from'))))
+                else:
+                    out.append((s, ('raise', Exc(v.kind, term=v.term, payload=v.args, origin='raise'))))
             else:
                 raise Unsupported('raise of %r' % (v,), node)
         return out
